@@ -81,7 +81,20 @@ class DH:
         return self.n
 
 
-DTYPES = {c.__name__: c for c in (DA, DB, DC, DD, DE, DF, DG, DH)}
+@labtech.task
+class DZ:
+    """Container-like task: defines __len__, so instances with n == 0 are falsy."""
+    n: int = 0
+    leaf: Any = None
+
+    def __len__(self):
+        return self.n
+
+    def run(self) -> int:
+        return self.n
+
+
+DTYPES = {c.__name__: c for c in (DA, DB, DC, DD, DE, DF, DG, DH, DZ)}
 # harness-owned expectation of each class block: fields (type string, name) in order, run line suffix
 EXPECT = {
     'DF': ([('int', 'n')], ' int'),
@@ -92,7 +105,8 @@ EXPECT = {
     'DE': ([('Any', 'kids'), ('bool', 'flag')], ' float'),
     'DG': ([('str', 'tag'), ('Any', 'child'), ('Any', 'kids')], ' str'),
     'DH': ([('int', 'n'), ('Any', 'leaf')], ' int'),
+    'DZ': ([('int', 'n'), ('Any', 'leaf')], ' int'),
 }
 # which fields may hold tasks
 TASK_FIELDS = {'DF': [], 'DC': ['leaf'], 'DB': ['child', 'kids'], 'DA': ['child', 'kids', 'byname'],
-               'DD': ['a', 'b'], 'DE': ['kids'], 'DG': ['child', 'kids'], 'DH': ['leaf']}
+               'DD': ['a', 'b'], 'DE': ['kids'], 'DG': ['child', 'kids'], 'DH': ['leaf'], 'DZ': ['leaf']}
